@@ -122,6 +122,29 @@ fn word_boundary() -> impl Strategy<Value = Expr> {
     })
 }
 
+/// Zero raised to exponents around and beyond the 32-bit range (the only base for which such an exponent can be
+/// evaluated at all: the answer needs no arithmetic): 0 for a positive exponent, an error for a negative one.
+fn zero_to_huge_powers() -> impl Strategy<Value = Expr> {
+    let zero = prop_oneof![
+        Just(Expr::Num(Lit::from_text("0"))),
+        Just(Expr::Num(Lit::from_text("0.0"))),
+        Just(Expr::Paren(Box::new(Expr::bin(Op::Sub, Expr::Num(Lit::from_text("3")), Expr::Num(Lit::from_text("3")))))),
+        Just(Expr::Paren(Box::new(Expr::bin(Op::Mul, Expr::Num(Lit::from_text("0")), Expr::Num(Lit::from_text("7")))))),
+    ];
+    let exp = prop_oneof![
+        Just("2147483647"), Just("2147483648"), Just("4294967296"), Just("1e10"), Just("99999999999999999999"), Just("9223372036854775808"),
+        Just("-2147483648"), Just("-2147483649"), Just("-1e10"), Just("65536"), Just("-65537"),
+    ];
+    (zero, exp, prop::option::weighted(0.4, gen::small_lit()), any::<bool>()).prop_map(|(z, e, extra, sum)| {
+        let p = Expr::PowE(Box::new(z), Box::new(Expr::Num(Lit::from_text(e))));
+        match extra {
+            Some(l) if sum => Expr::bin(Op::Add, Expr::Num(l), p),
+            Some(l) => Expr::bin(Op::Mul, p, Expr::Num(l)),
+            None => p,
+        }
+    })
+}
+
 pub fn run(ctx: &Ctx) {
     ctx.set_rule("expression trees over decimal literals (small, 60-300 digits, zero-rich, and values next to machine-word boundaries 2^k + j / 10^k + j) with + - * / ^ and parentheses, canonical layout, compared with an independent exact evaluator; non-trivial = >=2 distinct operator kinds, or a parenthesised right operand, or a zero/negative power, or a literal longer than 20 characters, or a division-by-zero case; distinct by query text");
     ctx.assume("exponents are integer literals or parenthesised integer-valued expressions by construction; product of |exponents| along a path is capped (size guard)");
@@ -136,6 +159,7 @@ pub fn run(ctx: &Ctx) {
     ctx.run_gen("big-literals", || gen::num_expr(big), n / 4, check, case_json);
     ctx.run_gen("zero-rich", zero_rich, n / 4, check, case_json);
     ctx.run_gen("word-boundary", word_boundary, n / 8, check, case_json);
+    ctx.run_gen("zero-to-huge-powers", zero_to_huge_powers, 2_000, check, case_json);
 }
 
 pub fn replay(ctx: &Ctx, case: &Value) {
